@@ -25,12 +25,14 @@ func Walk(node Node, f func(Node) bool) {
 		walkComments(node.Last, f)
 	case *Comment:
 	case *Stmt:
-		for _, c := range node.Comments {
+		for i := range node.Comments {
+			c := &node.Comments[i]
 			if !node.End().After(c.Pos()) {
-				defer Walk(&c, f)
+				// this comment and all the following ones trail the statement
+				defer walkComments(node.Comments[i:], f)
 				break
 			}
-			Walk(&c, f)
+			Walk(c, f)
 		}
 		if node.Cmd != nil {
 			Walk(node.Cmd, f)
@@ -138,12 +140,14 @@ func Walk(node Node, f func(Node) bool) {
 		walkList(node.Items, f)
 		walkComments(node.Last, f)
 	case *CaseItem:
-		for _, c := range node.Comments {
+		for i := range node.Comments {
+			c := &node.Comments[i]
 			if c.Pos().After(node.Pos()) {
-				defer Walk(&c, f)
+				// this comment and all the following ones come after the node
+				defer walkComments(node.Comments[i:], f)
 				break
 			}
-			Walk(&c, f)
+			Walk(c, f)
 		}
 		walkList(node.Patterns, f)
 		walkList(node.Stmts, f)
@@ -157,12 +161,14 @@ func Walk(node Node, f func(Node) bool) {
 		walkList(node.Elems, f)
 		walkComments(node.Last, f)
 	case *ArrayElem:
-		for _, c := range node.Comments {
+		for i := range node.Comments {
+			c := &node.Comments[i]
 			if c.Pos().After(node.Pos()) {
-				defer Walk(&c, f)
+				// this comment and all the following ones come after the node
+				defer walkComments(node.Comments[i:], f)
 				break
 			}
-			Walk(&c, f)
+			Walk(c, f)
 		}
 		walkNilable(node.Index, f)
 		walkNilable(node.Value, f)
